@@ -137,7 +137,7 @@ package router
 // flight), with a private copy of the question; nothing on this path blocks or contacts the upstream.
 //@ func (r *router) asyncSingleFlightPrefetch(q *dnsmsg.Question, remoteAddr netip.Addr, u *upstreamWrapper)
 //@   props C19 C20
-//@   requires r != nil && q != nil && r.cache != nil && r.prefetch != nil && r.prefetch.queue != nil && u != nil && r.cache.logger != nil && r.logger != nil && r.prefetchTotal != nil && r.ctx != nil
+//@   requires r != nil && q != nil && r.cache != nil && r.prefetch != nil && r.prefetch.queue != nil && u != nil && r.cache.logger != nil && (r.cache.memory == nil || memOK(r.cache.memory)) && r.logger != nil && r.prefetchTotal != nil && r.ctx != nil
 //@   ghost nGo int = 0
 //@   ghost nRes int = 0
 //@   ghost okRes bool = false
@@ -148,15 +148,47 @@ package router
 //@   ensures [C19:reserve-first] nRes == 1
 //@   callsite go: [C07,C20:goroutine-gets-private-question] !captures(q)
 //@   ensures [C19:spawn-only-if-reserved] (nGo == 1) == okRes && nGo <= 1
-//@ func (c *cacheCtl) Get(ctx context.Context, q *dnsmsg.Question, rc *RequestContext) (m *dnsmsg.Msg, storedTime time.Time, expireTime time.Time)
-//@   trusted
-//@   requires c != nil && q != nil && rc != nil
-//@   modifies rc.Response.IpMark
-//@   ensures m != nil ==> fresh(m) && wfMsg(m) && noOPT(m.Additionals) && (m.Additionals == nil || fresh(m.Additionals)) && len(m.Questions) <= 65535 && len(m.Answers) <= 65535 && len(m.Authorities) <= 65535 && len(m.Additionals) <= 65535
+// What is stored is the full uncompressed encoding of the response (then s2-compressed, assumed lossless); what is
+// served is the decoding of exactly the stored bytes. That cached data never holds an OPT record is an invariant of
+// the stores (forward strips them before Store) and is assumed of the cache content.
 //@ func packCacheMsg(m *dnsmsg.Msg) (b pool.Buffer, err error)
-//@   trusted
+//@   props C07
+//@   requires m != nil && wfMsg(m) && smallMsg(m)
 //@   modifies nothing
 //@   ensures err == nil ==> b != nil && fresh(b)
+//@   ensures err != nil ==> b == nil
+//@   callsite Pack: [C07:cached-copy-is-the-full-encoding] arg0 == m && arg2 == false && arg3 == 0
+//@ func unpackCacheMsg(m []byte) (r *dnsmsg.Msg, err error)
+//@   props C07 C01
+//@   ghost gd []byte = m
+//@   aftercall Decode?: gd = ret0
+//@   modifies nothing
+//@   ensures err == nil ==> r != nil && fresh(r) && wfMsg(r) && freshElems(r)
+//@   ensures err != nil ==> r == nil
+//@   callsite Decode?: [C07:decodes-the-stored-bytes] sameSlice(arg1, m, 0, len(m))
+//@   callsite UnpackMsg?: [C07:decodes-the-stored-bytes] sameSlice(arg0, gd, 0, len(gd))
+
+// Get: the key is built from this question and this client's group; a hit is the decoded entry found under that key,
+// aged by the whole seconds since it was stored; an undecodable entry is a miss.
+//@ func (c *cacheCtl) Get(ctx context.Context, q *dnsmsg.Question, rc *RequestContext) (m *dnsmsg.Msg, storedTime time.Time, expireTime time.Time)
+//@   props C07 C08
+//@   requires c != nil && q != nil && rc != nil && c.logger != nil && (c.memory == nil || memOK(c.memory))
+//@   ghost gmark string = ""
+//@   ghost gkey pool.Buffer = nil
+//@   ghost gm *dnsmsg.Msg = nil
+//@   ghost nSub int = 0
+//@   aftercall ipMark: gmark = ret0
+//@   aftercall cacheKey?: gkey = ret0
+//@   aftercall unpackCacheMsg?: gm = ret0
+//@   oncall SubtractTTL?: nSub = nSub + 1
+//@   assumecall unpackCacheMsg?: ret1 == nil ==> noOPT(ret0.Additionals) && distinctRecs(ret0) && (ret0.Additionals == nil || fresh(ret0.Additionals)) && len(ret0.Questions) <= 65535 && len(ret0.Answers) <= 65535 && len(ret0.Authorities) <= 65535 && len(ret0.Additionals) <= 65535
+//@   modifies rc.Response.IpMark
+//@   ensures m != nil ==> fresh(m) && wfMsg(m) && noOPT(m.Additionals) && (m.Additionals == nil || fresh(m.Additionals)) && len(m.Questions) <= 65535 && len(m.Answers) <= 65535 && len(m.Authorities) <= 65535 && len(m.Additionals) <= 65535
+//@   ensures [C08:served-copy-is-aged-once] m != nil ==> nSub == 1 && m == gm
+//@   callsite ipMark: [C07:client-group-of-this-client] arg1 == rc.RemoteAddr.ip
+//@   callsite cacheKey?: [C07:key-of-this-question-and-group] arg0 == q && arg1 == gmark
+//@   callsite Get?: [C07:lookup-under-that-key] arg0 == c.memory ==> sameSlice(arg1, gkey, 0, len(gkey))
+//@   callsite SubtractTTL?: [C08:aged-copy] arg0 == gm && gm != nil
 //@ func (c *cacheCtl) ipMark(addr netip.Addr) (mark string)
 //@   trusted
 //@   modifies nothing
@@ -172,7 +204,7 @@ package router
 
 //@ func (c *cacheCtl) Store(q *dnsmsg.Question, clientAddr netip.Addr, resp *dnsmsg.Msg)
 //@   props C08
-//@   requires c != nil && q != nil && (resp == nil || wfMsg(resp)) && c.logger != nil
+//@   requires c != nil && q != nil && (resp == nil || (wfMsg(resp) && smallMsg(resp))) && c.logger != nil
 //@   modifies nothing
 //@   callsite Store: [C08:never-truncated] resp != nil && !resp.Truncated
 //@   callsite Store: [C08:negative-flag] arg5 == (resp.RCode != 0)
@@ -228,7 +260,7 @@ package router
 
 //@ func (r *router) handleReq(ctx context.Context, q *dnsmsg.Question, rc *RequestContext)
 //@   props C03 C10 C12 C01
-//@   requires r != nil && q != nil && rc != nil && r.cache != nil && r.cache.logger != nil && forall(k, 0, len(r.rules), r.rules[k] != nil)
+//@   requires r != nil && q != nil && rc != nil && r.cache != nil && r.cache.logger != nil && (r.cache.memory == nil || memOK(r.cache.memory)) && forall(k, 0, len(r.rules), r.rules[k] != nil)
 //@   requires r.queryCacheHitTotal != nil && r.prefetch != nil && r.prefetch.queue != nil && r.logger != nil && r.prefetchTotal != nil && r.ctx != nil
 //@   modifies rc.Response.Msg, rc.Response.RuleIdx, rc.Response.Cached, rc.Response.IpMark, obj(r.prefetch.queue)
 //@   ensures rc.Response.Msg != nil && fresh(rc.Response.Msg) && wfMsg(rc.Response.Msg)
@@ -253,7 +285,7 @@ package router
 
 //@ func (r *router) handleReqMsg(ctx context.Context, m *dnsmsg.Msg, rc *RequestContext)
 //@   props C03 C10 C12 C01
-//@   requires r != nil && m != nil && rc != nil && wfMsg(m) && r.cache != nil && r.cache.logger != nil && forall(k, 0, len(r.rules), r.rules[k] != nil)
+//@   requires r != nil && m != nil && rc != nil && wfMsg(m) && r.cache != nil && r.cache.logger != nil && (r.cache.memory == nil || memOK(r.cache.memory)) && forall(k, 0, len(r.rules), r.rules[k] != nil)
 //@   requires r.queryCacheHitTotal != nil && r.logger != nil && r.prefetch != nil && r.prefetch.queue != nil && r.prefetchTotal != nil && r.ctx != nil
 //@   modifies rc.Response.Msg, rc.Response.RuleIdx, rc.Response.Cached, rc.Response.IpMark, obj(r.prefetch.queue)
 //@   ensures rc.Response.Msg != nil && wfMsg(rc.Response.Msg)
@@ -313,7 +345,7 @@ package router
 
 //@ func (r *router) handleServerReq(m *dnsmsg.Msg, rc *RequestContext)
 //@   props C03 C01
-//@   requires r != nil && m != nil && rc != nil && wfMsg(m) && r.cache != nil && r.cache.logger != nil && forall(k, 0, len(r.rules), r.rules[k] != nil)
+//@   requires r != nil && m != nil && rc != nil && wfMsg(m) && r.cache != nil && r.cache.logger != nil && (r.cache.memory == nil || memOK(r.cache.memory)) && forall(k, 0, len(r.rules), r.rules[k] != nil)
 //@   requires r.queryCacheHitTotal != nil && r.logger != nil && r.queryTotal != nil && r.prefetch != nil && r.prefetch.queue != nil && r.prefetchTotal != nil && r.ctx != nil
 //@   modifies *
 //@   ensures [C03:always-a-response] rc.Response.Msg != nil && wfMsg(rc.Response.Msg)
@@ -323,7 +355,7 @@ package router
 
 // ---- listeners: one response write per handled request ------------------------------------------------
 
-//@ spec func routerReady(r *router) bool = r != nil && r.cache != nil && r.cache.logger != nil && forall(k, 0, len(r.rules), r.rules[k] != nil) && r.queryCacheHitTotal != nil && r.logger != nil && r.queryTotal != nil && r.prefetch != nil && r.prefetch.queue != nil && r.prefetchTotal != nil && r.ctx != nil
+//@ spec func routerReady(r *router) bool = r != nil && r.cache != nil && r.cache.logger != nil && (r.cache.memory == nil || memOK(r.cache.memory)) && forall(k, 0, len(r.rules), r.rules[k] != nil) && r.queryCacheHitTotal != nil && r.logger != nil && r.queryTotal != nil && r.prefetch != nil && r.prefetch.queue != nil && r.prefetchTotal != nil && r.ctx != nil
 // the payload size the client advertised: class of the last OPT record of the query, at least 512
 //@ spec func lastOPTAt(m *dnsmsg.Msg, k int) bool = 0 <= k && k < len(m.Additionals) && isOPT(m.Additionals[k]) && forall(j, k+1, len(m.Additionals), !isOPT(m.Additionals[j]))
 
@@ -363,7 +395,7 @@ package router
 // the refresh goroutine: releases its private question and the reservation exactly once, on every path
 //@ closure router.asyncSingleFlightPrefetch$1
 //@   props C19 C20
-//@   requires r != nil && r.prefetch != nil && r.prefetch.queue != nil && qCopy != nil && u != nil && r.cache != nil && r.cache.logger != nil && r.logger != nil && r.prefetchTotal != nil && r.ctx != nil
+//@   requires r != nil && r.prefetch != nil && r.prefetch.queue != nil && qCopy != nil && u != nil && r.cache != nil && r.cache.logger != nil && (r.cache.memory == nil || memOK(r.cache.memory)) && r.logger != nil && r.prefetchTotal != nil && r.ctx != nil
 //@   ghost nDone int = 0
 //@   ghost nRel int = 0
 //@   oncall done: nDone = nDone + 1
@@ -376,7 +408,7 @@ package router
 
 //@ func (r *router) doPrefetch(q *dnsmsg.Question, remoteAddr netip.Addr, u *upstreamWrapper)
 //@   props C19 C08
-//@   requires r != nil && q != nil && u != nil && r.cache != nil && r.cache.logger != nil && r.logger != nil && r.prefetchTotal != nil && r.ctx != nil
+//@   requires r != nil && q != nil && u != nil && r.cache != nil && r.cache.logger != nil && (r.cache.memory == nil || memOK(r.cache.memory)) && r.logger != nil && r.prefetchTotal != nil && r.ctx != nil
 //@   ghost nStore int = 0
 //@   ghost fwdErr error = nil
 //@   aftercall forward: fwdErr = ret1
